@@ -296,3 +296,30 @@ func smtValInt(s string) (int64, bool) {
 	}
 	return v, true
 }
+
+// solveModel: look for a model (sat) of a query, z3-new then z3.
+func solveModel(file string, sec int) *SolveResult {
+	res := &SolveResult{File: file}
+	for _, sp := range solvers[:2] {
+		st, out, ms := runSolver(context.Background(), sp, file, sec)
+		res.Status, res.Solver, res.Ms, res.Output = st, sp.name, ms, out
+		if st == "sat" {
+			return res
+		}
+	}
+	return res
+}
+
+// weaken drops quantified hypotheses (define-funs of sort Bool whose body is a quantifier).
+func weaken(text string) string {
+	lines := strings.Split(text, "\n")
+	for i, ln := range lines {
+		if strings.HasPrefix(ln, "(define-fun |as~") && (strings.Contains(ln, "(forall ") || strings.Contains(ln, "(exists ")) {
+			k := strings.Index(ln, " () Bool ")
+			if k > 0 {
+				lines[i] = ln[:k] + " () Bool true)"
+			}
+		}
+	}
+	return strings.Join(lines, "\n")
+}
